@@ -37,7 +37,14 @@ def observe(req):
         warnings.simplefilter("ignore")
         v0 = np.array([float(FL0(np.float64(x))) for x in xs])                 # 0-D, one by one (first request)
         v1 = np.asarray(FL(xs), dtype=float)
-        v2 = np.asarray(FL(xs_p.reshape(-1, 4)), dtype=float).ravel()[:n]
+        # the 2-D evaluation uses an instance built with a NON-DEFAULT guard (eps=1e-8): the guard only acts at the
+        # removable singularities, so the published closed form must come out all the same
+        with contextlib.redirect_stdout(io.StringIO()):
+            try:
+                FLe = P.fluxLimiter(req["name"], eps=1e-8)
+            except Exception:       # noqa: BLE001
+                FLe = lambda r: np.full(np.shape(r), np.nan)
+        v2 = np.asarray(FLe(xs_p.reshape(-1, 4)), dtype=float).ravel()[:n]
         v3 = np.asarray(FL(xs_p.reshape(-1, 2, 3)), dtype=float).ravel()[:n]
         huge = []
         for k in (3, 4, 6, 8, 12, 16, 20, 50, 100):
